@@ -281,26 +281,6 @@ theorem dedent_witness :
 
 /-! ## parent() -/
 
-/-- where the `parent()` chain of a definition starts on the tree: a `def` / `class` name at the
-scope its statement sits in, a parameter or an assigned name at its own scope -/
-def chainStart (p : NProg) (l : Leaf) : Nat :=
-  match l.role with
-  | .defName s => p.pscope s
-  | _ => l.pscope
-
-/-- hypothesis of `parent_chain_eq_enclosing_partial`: definitions only; an assigned name must sit
-in a body (not in a header) and its first named context must not be a lambda -/
-def ChainHyp (p : NProg) (i : Nat) : Bool :=
-  match p.leaves[i]? with
-  | none => false
-  | some l =>
-    match l.role with
-    | .defName s => decide (s < p.scopes.length) && p.isDef s
-    | .param => true
-    | .bind => (scopeOfNode p l.start l.pscope l.isParamName == l.pscope) &&
-        (p.kind (skipComps p p.fuel l.pscope) != .lambda)
-    | _ => false
-
 theorem chainFrom_defOrModule {p : NProg} (h : WFS p = true) (x : Nat) (hx : x < p.scopes.length)
     (f : Nat) (hf : x < f) : chainFrom p f (defOrModule p x) = defChain p p.fuel x ++ [0] := by
   unfold defOrModule
